@@ -102,12 +102,14 @@ static int xe_main(int argc, char **argv) {
   xe_str = malloc(sizeof(char *) * (xe_nstr + 1));
   { long p = 0; int j = 0; while (p < slen) { xe_str[j++] = sbuf + p; p += strlen(sbuf + p) + 1; } }
   rs = calloc(n + 1, sizeof(xv_resp));
+  xv_fptrap_from_env();
   if (getenv("XV_SETLOCALE")) setlocale(LC_ALL, "");      /* run under the locale of the environment (the thread monitor's reference for its comma-locale runs) */
   if (getenv("XV_XRAYINIT")) XRayInit();
   noslot = getenv("XV_NOSLOT") != NULL;     /* call everything WITHOUT an error slot (status is then always 0) */
   for (k = 0; k < n; k++) {
     xrl_error *e = NULL; const xv_req *r = &rq[k]; xv_resp *o = &rs[k];
     o->msg = -1;
+    xv_poison_stack();
     errno = xe_errnos[k & 7];      /* whatever an earlier call of the process may have left behind: no query may depend on it */
     if (r->fn >= 0 && r->fn < XV_NFN) o->v[0] = xv_call(r->fn, r->i, r->d, xe_s(r->s), noslot ? NULL : &e);
     else if (r->fn >= 1000 && r->fn < XS_END) xe_special(r, o, noslot ? NULL : &e);
